@@ -72,6 +72,20 @@ def main():
     results = json.load(open(resfile)) if os.path.exists(resfile) else {}
     if not repo_clean():
         print('refusing: /repo has uncommitted changes to tracked files'); sys.exit(2)
+    # the evidence files describe the unchanged tree: keep them aside while the checks run against changed trees
+    import shutil, tempfile
+    keep = tempfile.mkdtemp(prefix='verif_evidence_')
+    for f in glob.glob(f'{VERIF}/evidence/*.json'): shutil.copy(f, keep)
+    try:
+        _run(names, results, resfile, tier, also, allp, seeds)
+    finally:
+        for f in glob.glob(f'{keep}/*.json'): shutil.copy(f, f'{VERIF}/evidence/')
+        shutil.rmtree(keep, ignore_errors=True)
+    if not repo_clean():
+        print('WARNING: /repo not clean after run'); sys.exit(2)
+
+
+def _run(names, results, resfile, tier, also, allp, seeds):
     for name in names:
         d = f'{VERIF}/seeded/{name}'
         meta = json.load(open(f'{d}/meta.json'))
@@ -96,8 +110,6 @@ def main():
         finally:
             undo()
         json.dump(results, open(resfile, 'w'), indent=1, sort_keys=True)
-    if not repo_clean():
-        print('WARNING: /repo not clean after run'); sys.exit(2)
 
 
 if __name__ == '__main__':
